@@ -69,6 +69,11 @@ type entry struct {
 	// CrashIsViolation: a shard that dies with a Go panic/fatal error inside
 	// repository code is attributed to the breadcrumb case and re-run.
 	CrashIsViolation bool `json:"crash_is_violation,omitempty"`
+	// RacePass: after the exhaustive pass, run the same harness bodies
+	// free-running (VERIF_FREE=1) in a -race build for this many seconds
+	// (quick, thorough) and report data races between two accesses that are
+	// both in the instrumented source. Supplementary (sampling), SCHED checks only.
+	RacePass []int `json:"race_pass_s,omitempty"`
 	// MinOutcomes is the least number of distinct observed outcomes for the
 	// exploration to count as non-vacuous (default 2).
 	MinOutcomes int `json:"min_outcomes,omitempty"`
@@ -203,12 +208,25 @@ func buildOverlay(e entry, wd string) (string, string) {
 }
 
 func buildTestBinary(e entry, wd string) (string, error) {
+	return buildTestBinaryMode(e, wd, false)
+}
+
+func buildTestBinaryMode(e entry, wd string, race bool) (string, error) {
 	ov, imp := buildOverlay(e, wd)
 	bin := filepath.Join(wd, "t.test")
+	args := []string{"test", "-c", "-overlay", ov, "-vet=off"}
+	if race {
+		bin = filepath.Join(wd, "t.race.test")
+		args = append(args, "-race")
+	}
 	os.Remove(bin)
-	cmd := exec.Command(goBin(), "test", "-c", "-overlay", ov, "-vet=off", "-o", bin, imp)
+	args = append(args, "-o", bin, imp)
+	cmd := exec.Command(goBin(), args...)
 	cmd.Dir = repoDir
 	cmd.Env = goEnv()
+	if race {
+		cmd.Env = append(cmd.Env, "CGO_ENABLED=1")
+	}
 	var buf bytes.Buffer
 	cmd.Stdout = &buf
 	cmd.Stderr = &buf
@@ -446,6 +464,26 @@ func runCheck(e entry, tier string, replay string) int {
 		return 2
 	}
 	buildS := time.Since(start).Seconds()
+	if replay != "" && len(e.RacePass) == 2 {
+		var rf struct {
+			Sig  string `json:"signature"`
+			Part string `json:"part"`
+		}
+		if b, err := os.ReadFile(replay); err == nil && json.Unmarshal(b, &rf) == nil && rf.Part == "race-pass" {
+			// free-running schedules cannot be replayed: run the pass again
+			os.Setenv("VERIF_RACE_S", envOr("VERIF_RACE_S", "30"))
+			_, vs := racePass(e, wd, "thorough", seed)
+			for _, v := range vs {
+				if v.Sig == rf.Sig {
+					fmt.Printf("replay (free-running -race pass re-run) reproduces: %s\n%s\n", v.Sig, trunc(v.What, 1500))
+					fmt.Printf("VIOLATION property=%s replay=%s\n", e.ID, replay)
+					return 1
+				}
+			}
+			fmt.Printf("replay: the free-running -race pass did not report %s on the current tree\n", rf.Sig)
+			return 0
+		}
+	}
 	runs := runShards(e, bin, wd, tier, seed, replay)
 
 	if replay != "" {
@@ -566,6 +604,14 @@ func runCheck(e entry, tier string, replay string) int {
 	if broken {
 		return 2
 	}
+	if len(e.RacePass) == 2 && racePassBudget(e, tier) > 0 {
+		info, rv := racePass(e, wd, tier, seed)
+		m.Notes["race_pass"] = info
+		m.Violations = append(m.Violations, rv...)
+		if ok, _ := info["completed"].(bool); !ok {
+			m.Caps = append(m.Caps, "supplementary free-running -race pass did not complete: "+fmt.Sprint(info["error"]))
+		}
+	}
 
 	// classify violations against the known-findings file
 	findings := loadFindings()
@@ -680,6 +726,153 @@ func runCheck(e entry, tier string, replay string) int {
 		return 2
 	}
 	return 0
+}
+
+// racePass builds the harness with -race and runs the same thread programs
+// free-running (real goroutines, channels and mutexes; see vsched/free.go).
+// Only reports whose two conflicting accesses are both located in the
+// instrumented repository source count: the harness monitors are deliberately
+// unsynchronised and race with each other. The pass samples schedules, so it
+// can only add violations, never decide that there are none.
+func racePass(e entry, wd, tier string, seed int64) (map[string]any, []violation) {
+	info := map[string]any{"completed": false, "kind": "supplementary: same harness bodies, free-running under the Go race detector (sampling, not exhaustive)"}
+	budget := racePassBudget(e, tier)
+	t0 := time.Now()
+	bin, err := buildTestBinaryMode(e, wd, true)
+	if err != nil {
+		info["error"] = trunc(err.Error(), 600)
+		return info, nil
+	}
+	info["build_s"] = round1(time.Since(t0).Seconds())
+	test := e.Test
+	if test == "" {
+		test = "TestVerif_" + e.ID
+	}
+	out := filepath.Join(wd, "race.json")
+	logBase := filepath.Join(wd, "racelog")
+	old, _ := filepath.Glob(logBase + ".*")
+	for _, f := range old {
+		os.Remove(f)
+	}
+	os.Remove(out)
+	cmd := exec.Command(bin, "-test.run", "^"+test+"$", "-test.timeout", fmt.Sprintf("%ds", budget*3+180))
+	cmd.Dir = wd
+	cmd.Env = append(goEnv(), "VERIF_FREE=1", "VERIF_TIER="+tier, "VERIF_SEED="+strconv.FormatInt(seed, 10),
+		"VERIF_SHARD=0/1", "VERIF_OUT="+out, fmt.Sprintf("VERIF_DEADLINE_S=%d", budget),
+		"GORACE=log_path="+logBase+" halt_on_error=0", "GOMAXPROCS=8")
+	var buf bytes.Buffer
+	cmd.Stdout = &buf
+	cmd.Stderr = &buf
+	cmd.Run() // the exit status is 1 whenever the detector reported anything, including harness-only races
+	b, rerr := os.ReadFile(out)
+	var sr shardResult
+	if rerr != nil || json.Unmarshal(b, &sr) != nil || !sr.Completed {
+		info["error"] = "free-running process did not complete: " + tail(buf.String(), 600)
+		return info, nil
+	}
+	info["completed"] = true
+	info["free_run"] = sr.Notes["free_run"]
+	info["wall_s"] = round1(time.Since(t0).Seconds())
+	inst := map[string]bool{}
+	gen, _ := filepath.Glob(filepath.Join(wd, "rewritten", "*.go"))
+	for _, f := range gen {
+		inst[filepath.Base(f)] = true
+	}
+	logs, _ := filepath.Glob(logBase + ".*")
+	reports, inSource := 0, 0
+	bySig := map[string]string{}
+	for _, lf := range logs {
+		data, _ := os.ReadFile(lf)
+		for _, blk := range strings.Split(string(data), "==================") {
+			if !strings.Contains(blk, "WARNING: DATA RACE") {
+				continue
+			}
+			reports++
+			sites := raceSites(blk)
+			if len(sites) < 2 {
+				continue
+			}
+			ok := true
+			for _, st := range sites[:2] {
+				if !inst[st.file] || !strings.Contains(st.dir, e.Pkg) {
+					ok = false
+				}
+			}
+			if !ok {
+				continue
+			}
+			inSource++
+			orig := func(f string) string {
+				for _, r := range e.Rewrite {
+					if strings.HasSuffix(f, "_"+strings.ReplaceAll(r, "/", "_")) {
+						return r
+					}
+				}
+				return f
+			}
+			a, bb := orig(sites[0].file)+":"+sites[0].fn, orig(sites[1].file)+":"+sites[1].fn
+			if bb < a {
+				a, bb = bb, a
+			}
+			sig := e.ID + "/data-race/" + a + "~" + bb
+			if _, dup := bySig[sig]; !dup {
+				bySig[sig] = strings.TrimSpace(blk)
+			}
+		}
+	}
+	info["race_reports_total"] = reports
+	info["race_reports_in_instrumented_source"] = inSource
+	var vs []violation
+	for sig, blk := range bySig {
+		cs, _ := json.Marshal(map[string]any{"race_pass": true, "report": blk,
+			"rerun": "VERIF_FREE=1 pass of " + e.ID + " (free-running schedules are not replayable; re-run the check)"})
+		vs = append(vs, violation{Sig: sig, What: "data race between two accesses in the instrumented source (free-running -race pass):\n" + trunc(blk, 1200), Part: "race-pass", Case: cs, Reruns: 1})
+	}
+	return info, vs
+}
+
+func racePassBudget(e entry, tier string) int {
+	if s := os.Getenv("VERIF_RACE_S"); s != "" {
+		if v, err := strconv.Atoi(s); err == nil {
+			return v
+		}
+	}
+	if tier == "thorough" {
+		return e.RacePass[1]
+	}
+	return e.RacePass[0]
+}
+
+type raceSite struct{ fn, file, dir string }
+
+// raceSites returns the top frame of each access of one race report.
+func raceSites(blk string) []raceSite {
+	var sites []raceSite
+	lines := strings.Split(blk, "\n")
+	for i := 0; i < len(lines); i++ {
+		l := strings.TrimSpace(lines[i])
+		isAccess := (strings.HasPrefix(l, "Read at") || strings.HasPrefix(l, "Write at") || strings.HasPrefix(l, "Previous read at") || strings.HasPrefix(l, "Previous write at") ||
+			strings.HasPrefix(l, "Atomic") || strings.HasPrefix(l, "Previous atomic"))
+		if !isAccess || i+2 >= len(lines) {
+			continue
+		}
+		fn := strings.TrimSpace(lines[i+1])
+		if j := strings.LastIndex(fn, "("); j > 0 {
+			fn = fn[:j]
+		}
+		if j := strings.LastIndex(fn, "/"); j >= 0 {
+			fn = fn[j+1:]
+		}
+		loc := strings.TrimSpace(lines[i+2])
+		if j := strings.Index(loc, " "); j > 0 {
+			loc = loc[:j]
+		}
+		if j := strings.LastIndex(loc, ":"); j > 0 {
+			loc = loc[:j]
+		}
+		sites = append(sites, raceSite{fn: strings.ReplaceAll(fn, " ", ""), file: filepath.Base(loc), dir: filepath.Dir(loc)})
+	}
+	return sites
 }
 
 // confirmCrash re-runs the breadcrumb case of a died shard in fresh
